@@ -480,6 +480,49 @@ void persistentOperatorCase(Ctx &c, Rng &g) {
     const Grid<T> gv = mkGrid<T>(pts);
     op.emplace(mkSpline<T, 1>(gv, 0, pts.size(), genCoefM(g, dyadic, pts.size() - 1, 1)));
   }
+  // long-lived splines produced through the supplied-grid route of the
+  // generator (which compares the caller's grid with a temporary one)
+  static std::vector<Spline<T, 2>> basisP;
+  static std::vector<R> basisPts;
+  if (basisP.empty() || c.caseId % 256 == 30) {
+    basisPts = genGrid(g, dyadic, 5, 9);
+    std::vector<R> kn;
+    for (const auto &x : basisPts)
+      for (size_t r = 0, m = (size_t)g.range(1, 2); r < m; r++) kn.push_back(x);
+    const Grid<T> callers = mkGrid<T>(basisPts);
+    bspline::BSplineGenerator<T> gen(mkVec<T>(kn), callers);
+    basisP = gen.template generateBSplines<2>();
+  }
+  if (!basisP.empty()) {
+    // a different grid of the same size, allocated now, on the right-hand side
+    std::vector<R> o2 = basisPts;
+    const size_t kk = (size_t)g.range(0, (int64_t)o2.size() - 1);
+    o2[kk] += (kk + 1 < o2.size() ? (o2[kk + 1] - o2[kk]) : R(1)) / 2;
+    const Grid<T> d2 = mkGrid<T>(o2);
+    const Spline<T, 2> &P = basisP[g.below(basisP.size())];
+    const Spline<T, 2> sD(Support<T>(d2, P.getSupport().getStartIndex(),
+                                     P.getSupport().getEndIndex()),
+                          P.getCoefficients());
+    bool refusedP = false;
+    try {
+      auto r = P * sD;
+      (void)r;
+    } catch (const BSplineException &e) {
+      refusedP = e.getErrorCode() == ErrorCode::DIFFERING_GRIDS;
+    } catch (const std::exception &) {
+    }
+    if (P == sD || !(P != sD) || P.getSupport() == sD.getSupport() ||
+        P.getSupport().getGrid() == d2 || P.getSupport().hasSameGrid(sD.getSupport()))
+      c.violation("C15", "equality-across-grids/long-lived-spline",
+                  "a long-lived generated spline compares equal to a spline on "
+                  "a different grid of the same size: " + gridStr(basisPts) +
+                      " vs " + gridStr(o2));
+    if (!refusedP)
+      c.violation("C08", "computed-across-grids/long-lived-spline",
+                  gridStr(basisPts) + " vs " + gridStr(o2));
+    c.count("c15:equality-across-grids");
+    c.count("long-lived-spline:checked");
+  }
   const size_t n = pts.size();
   const Win w = genWin(g, n);
   const CoefM cm = genCoefM(g, dyadic, w.nint(), 2);
